@@ -152,7 +152,7 @@ func c03Property(t *rapid.T) {
 	if len(toks) > 0 && rapid.Bool().Draw(t, "boosts") {
 		opt.ContextBoosts = map[string]float64{}
 		for i := rapid.IntRange(1, 3).Draw(t, "nb"); i > 0; i-- {
-			opt.ContextBoosts[rapid.SampledFrom(toks).Draw(t, "bw")] = rapid.SampledFrom([]float64{1, 1.3, 1.5, 2, 3, 0.5, 0, -2, math.NaN(), 1e-300, 1e6}).Draw(t, "bf") // non-positive and NaN factors are ignored
+			opt.ContextBoosts[rapid.SampledFrom(toks).Draw(t, "bw")] = rapid.SampledFrom([]float64{1, 1.3, 1.5, 2, 3, 0.5, 0, -2, math.NaN(), 1e-300, 1e6, 5e-324, 1e-320}).Draw(t, "bf") // non-positive and NaN factors are ignored
 		}
 	}
 	res := db.SearchUniversal(q, opt)
